@@ -4,7 +4,7 @@ from collections.abc import Iterable, Mapping
 from datetime import timezone
 from enum import Enum, EnumMeta
 from types import MappingProxyType
-from typing import Any, Callable, Optional, TypeVar, Union
+from typing import Any, Callable, Optional, TypeVar, Union, get_origin
 
 from ...common import Catchable, Dumper, Loader, TypeHint, VarTuple
 from ...model_tools.definitions import Default, DescriptorAccessor, NoDefault, OutputField
@@ -165,8 +165,9 @@ def _name_mapping_convert_map(name_map: Omittable[NameMap]) -> VarTuple[Provider
 def _name_mapping_convert_preds(value: Omittable[Union[Iterable[Pred], Pred]]) -> Omittable[LocStackChecker]:
     if isinstance(value, Omitted):
         return value
-    # enum class is iterable, but it is a single predicate
-    if isinstance(value, Iterable) and not isinstance(value, (str, type)):
+    # enum class and parametrized generic (`List[int]` defines `__iter__` to be unpacked) are iterable,
+    # but they are a single predicate
+    if isinstance(value, Iterable) and not isinstance(value, (str, type)) and get_origin(value) is None:
         return OrLocStackChecker([create_loc_stack_checker(el) for el in value])
     return create_loc_stack_checker(value)
 
